@@ -34,6 +34,8 @@ pub mod verif_hooks {
         /// the process has exited (quit): searches still alive end
         pub static EXITED: Cell<bool> = const { Cell::new(false) };
         pub static POLLS: Cell<u64> = const { Cell::new(0) };
+        /// C12 mode: after every ucinewgame the shared tables must be empty, whatever the schedule
+        pub static CHECK_FRESH: Cell<bool> = const { Cell::new(false) };
     }
 
     pub fn poll(flag: &crate::verif_shim::sync::Arc<crate::verif_shim::sync::atomic::AtomicBool>) -> Option<bool> {
@@ -55,6 +57,8 @@ pub mod verif_hooks {
     }
 
     pub fn nodes(_n: u64) {}
+
+    pub fn limits(_soft: std::time::Duration, _hard: std::time::Duration) {}
 
     pub fn response(line: &str) -> bool {
         LOG.with(|l| l.borrow_mut().push(line.to_string()));
@@ -291,6 +295,11 @@ fn run_script(script: &[u8], abstract_states: &Mutex<BTreeSet<String>>) {
             }
             b'N' => {
                 assert!(u.verif_run_line("ucinewgame").unwrap());
+                if verif_hooks::CHECK_FRESH.with(|c| c.get()) {
+                    let ps = u.verif_persistent_state().clone();
+                    let g = ps.lock().unwrap();
+                    assert!(g.tt.occupied == 0 && g.tt.occupancy() == 0, "ucinewgame returned but the shared tables were not reset ({} entries left)", g.tt.occupied);
+                }
                 assert!(u.verif_run_line(POS).unwrap());
             }
             b'P' => {
@@ -454,11 +463,14 @@ fn case_json(script: &[u8], bound: usize, choices: &[usize]) -> J {
 }
 
 /// E7 for C05: one script on the optimised binary with real threads (one schedule, labelled so).
-fn blackbox_script(bin: &str, script: &[u8]) -> Result<(), String> {
+fn blackbox_script(bin: &str, script: &[u8], tiny_tree: bool) -> Result<(), String> {
     use std::time::Duration;
     let t = Duration::from_secs(10);
     let mut e = blackbox::Engine::start(bin)?;
     e.send("setoption name Hash value 1")?;
+    // tiny tree: bare kings — an unbounded search runs out of depth within milliseconds
+    let base = if tiny_tree { "position fen 8/8/8/3k4/8/3K4/8/8 w - - 0 1" } else { "position startpos" };
+    e.send(base)?;
     let (mut gos, mut isr) = (0usize, 0usize);
     e.send("isready")?;
     isr += 1;
@@ -475,10 +487,22 @@ fn blackbox_script(bin: &str, script: &[u8]) -> Result<(), String> {
                 isr += 1;
                 e.wait_for_count("readyok", isr, t).map_err(|m| format!("isready not answered: {m}"))?;
             }
-            b'N' => e.send("ucinewgame")?,
-            b'P' => e.send("position startpos moves e2e4")?,
+            b'N' => {
+                e.send("ucinewgame")?;
+                e.send(base)?;
+            }
+            b'P' => e.send(if tiny_tree { "position fen 8/8/8/3k4/8/3K4/8/8 w - - 0 1 moves d3e3" } else { "position startpos moves e2e4" })?,
             b'H' => e.send("setoption name Hash value 2")?,
             b'F' | b'D' | b'G' => {
+                if c == b'G' && tiny_tree {
+                    // give the unbounded search the time to exhaust its depth before the next command
+                    e.send("go infinite")?;
+                    std::thread::sleep(Duration::from_millis(30));
+                    gos += 1;
+                    outstanding = true;
+                    can_arrive = false;
+                    continue;
+                }
                 e.send(match c {
                     b'F' => "go depth 1",
                     b'D' => "go depth 3",
@@ -617,13 +641,19 @@ fn c05(run: &Run) -> i32 {
             let n = std::sync::atomic::AtomicU64::new(0);
             util::par_for(bb.len(), |i| {
                 n.fetch_add(1, std::sync::atomic::Ordering::Relaxed);
-                if let Err(m) = blackbox_script(&bin, bb[i]) {
-                    let lines: Vec<J> = bb[i].iter().map(|c| J::s(letter_name(*c))).collect();
-                    run.violation("blackbox-hang", format!("blackbox-hang|script {}", String::from_utf8_lossy(bb[i])), J::obj(vec![("kind", J::s("uci-blackbox-script")), ("script", J::s(String::from_utf8_lossy(bb[i]).to_string())), ("lines", J::Arr(lines))]), format!("optimised binary, script [{}]: {m}", script_text(bb[i])));
+                for tiny in [false, true] {
+                    // the bare-kings variant only differs for scripts with an unbounded search
+                    if tiny && !bb[i].contains(&b'G') {
+                        continue;
+                    }
+                    if let Err(m) = blackbox_script(&bin, bb[i], tiny) {
+                        let lines: Vec<J> = bb[i].iter().map(|c| J::s(letter_name(*c))).collect();
+                        run.violation("blackbox-hang", format!("blackbox-hang|script {} tiny_tree={tiny}", String::from_utf8_lossy(bb[i])), J::obj(vec![("kind", J::s("uci-blackbox-script")), ("script", J::s(String::from_utf8_lossy(bb[i]).to_string())), ("tiny_tree", J::Bool(tiny)), ("lines", J::Arr(lines))]), format!("optimised binary, script [{}] ({}): {m}", script_text(bb[i]), if tiny { "bare kings: the unbounded search exhausts its depth" } else { "start position" }));
+                    }
                 }
             });
             let k = n.load(std::sync::atomic::Ordering::Relaxed);
-            run.family("E7-SCRIPTS", &format!("well-formed scripts of length <= {bb_len} (quick tier: all up to length 3, of length 4 those with a go, a stop and a ucinewgame/setoption) on the optimised binary with real threads (go infinite on the start position); 10 s per awaited answer"), k, k, true, "one schedule per script — a sample of schedules, not an enumeration");
+            run.family("E7-SCRIPTS", &format!("well-formed scripts of length <= {bb_len} (quick tier: all up to length 3, of length 4 those with a go, a stop and a ucinewgame/setoption) on the optimised binary with real threads; go infinite on the start position and, for scripts with an unbounded search, also on bare kings (the search exhausts its depth); 10 s per awaited answer"), k, k, true, "one schedule per script — a sample of schedules, not an enumeration");
             *run.traces_validated.lock().unwrap() += k;
         }
     }
@@ -644,6 +674,37 @@ fn main() {
             let seed: u64 = std::env::var("VERIF_SEED").ok().and_then(|s| s.parse().ok()).unwrap_or(0);
             let run: &'static Run = Box::leak(Box::new(Run::new("C05", tier, seed)));
             std::process::exit(c05(run));
+        }
+        Some("newgame") => {
+            // C12 under schedules: every well-formed script in which a ucinewgame follows a search
+            let tier = args.get(2).map(|s| s.as_str()).unwrap_or("quick");
+            let (maxlen, bound) = if tier == "quick" { (4, 2) } else { (5, 2) };
+            let scripts: Vec<Vec<u8>> = all_scripts(maxlen).into_iter().filter(|s| s.iter().position(|c| b"FDG".contains(c)).map_or(false, |i| s[i..].contains(&b'N'))).collect();
+            let totals = Mutex::new((0u64, 0u64));
+            let fails: Mutex<Vec<J>> = Mutex::new(vec![]);
+            util::par_for(scripts.len(), |i| {
+                verif_hooks::CHECK_FRESH.with(|c| c.set(true));
+                let abs = Arc::new(Mutex::new(BTreeSet::new()));
+                let e = explore(&scripts[i], bound, &abs);
+                let mut t = totals.lock().unwrap();
+                t.0 += e.executions;
+                t.1 += e.steps;
+                drop(t);
+                if let Some((msg, choices)) = e.failure {
+                    let (_, f1, _) = replay_schedule(&scripts[i], &choices);
+                    let (_, f2, _) = replay_schedule(&scripts[i], &choices);
+                    let mut c = case_json(&scripts[i], bound, &choices);
+                    if let J::Obj(o) = &mut c {
+                        o.push(("check_fresh".to_string(), J::Bool(true)));
+                        o.push(("message".to_string(), J::s(msg.lines().next().unwrap_or("").chars().take(240).collect::<String>())));
+                        o.push(("replays_deterministically".to_string(), J::Bool(f1.is_some() && f2.is_some())));
+                    }
+                    fails.lock().unwrap().push(c);
+                }
+            });
+            let (ex, st) = *totals.lock().unwrap();
+            let out = J::obj(vec![("scripts", J::i(scripts.len() as i64)), ("max_length", J::i(maxlen as i64)), ("preemption_bound", J::i(bound as i64)), ("executions", J::i(ex)), ("steps", J::i(st)), ("failures", J::Arr(fails.into_inner().unwrap()))]);
+            println!("NEWGAME-RESULT {}", out.dump().replace('\n', " "));
         }
         Some("script") => {
             let s = args[2].as_bytes().to_vec();
@@ -667,6 +728,23 @@ fn main() {
             let j = J::parse(&text).expect("json");
             let case = j.get("case").cloned().unwrap_or(J::Null);
             let script = case.get("script").and_then(|x| x.as_str()).unwrap_or("").as_bytes().to_vec();
+            if case.get("kind").and_then(|x| x.as_str()) == Some("uci-blackbox-script") {
+                let tiny = matches!(case.get("tiny_tree"), Some(J::Bool(true)));
+                let bin = blackbox::binary().expect("VERIF_ENGINE_BIN");
+                match blackbox_script(&bin, &script, tiny) {
+                    Ok(()) => {
+                        println!("replay: no violation observed");
+                        std::process::exit(0);
+                    }
+                    Err(m) => {
+                        println!("replay: VIOLATION {m}");
+                        std::process::exit(1);
+                    }
+                }
+            }
+            if matches!(case.get("check_fresh"), Some(J::Bool(true))) {
+                verif_hooks::CHECK_FRESH.with(|c| c.set(true));
+            }
             let choices: Vec<usize> = case.get("schedule").and_then(|x| x.as_arr()).map(|a| a.iter().filter_map(|x| x.as_i64().map(|v| v as usize)).collect()).unwrap_or_default();
             println!("replaying script {} [{}] with a schedule of {} choices", String::from_utf8_lossy(&script), script_text(&script), choices.len());
             let (log, f, nd) = replay_schedule(&script, &choices);
